@@ -81,7 +81,7 @@ def corrupt(case, blocks, h, where, r):
 def explore(ck):
     r = ck.rng; quick = ck.tier == 'quick'
     ck.rule = ('consistent chains with 1..%d transactions per block (every merkle tree shape up to 3 levels wide of 128+: counts %s), block 0 the real genesis block of 7 coins or --start >= 1; plaintext and XOR-obfuscated directories; scripts and witness items of 10 001..70 000 bytes, over-long CompactSize encodings in every 7th transaction and in block transaction counts (the txid commits to the on-disk bytes); '
-               'each chain is also run with one bit flipped in the merkle-root field, the prev-hash field, transaction bytes covered by a txid (version/outpoint/value/locktime; the top bit of an input count, script length or output count, which in the last block makes the parser run past the end of the file) or a witness byte '
+               'block 0 replaced by the genesis block of another network or coin (regtest, signet, the supported coins among each other); each chain is also run with one bit flipped in the merkle-root field, the prev-hash field, transaction bytes covered by a txid (version/outpoint/value/locktime; the top bit of an input count, script length or output count, which in the last block makes the parser run past the end of the file) or a witness byte '
                '(not covered: must still pass), at every --start offset incl. corruption exactly at the first processed block and outside the range; expected from the generator: fails at the corrupted '
                'height iff it is processed. Non-trivial: passing case with >= 2 txs in a block, or a corrupted case; distinct by (counts, start, corruption).' % ((258 if quick else 1025), COUNTS_Q if quick else COUNTS_T))
     cases = []; expect = {}
@@ -117,6 +117,16 @@ def explore(ck):
                         # block h is outside the range, but if h == s-1 its indexed hash is what block s links to: the index record still holds the ORIGINAL hash -> pass
                         exp = None
                     expect[cc.id] = exp; cases.append(cc)
+    # block 0 is the genesis block of ANOTHER network or coin (regtest / signet under bitcoin and testnet3, and the supported coins swapped among each other): merkle root and
+    # links are fine, the genesis condition is not - the run must be rejected at height 0
+    swaps = [('testnet3', gen.FOREIGN_GENESIS['regtest']), ('testnet3', gen.FOREIGN_GENESIS['signet']), ('bitcoin', gen.FOREIGN_GENESIS['regtest']), ('bitcoin', gen.GENESIS['testnet3']),
+             ('testnet3', gen.GENESIS['bitcoin']), ('litecoin', gen.GENESIS['dogecoin']), ('dogecoin', gen.GENESIS['litecoin']), ('namecoin', gen.GENESIS['bitcoin']), ('unobtanium', gen.GENESIS['myriadcoin'])]
+    for k5, (coin, g0) in enumerate(swaps if not quick else swaps[:5] + [swaps[5 + ck.seed % 4]]):
+        b1 = Block(g0.hash, [coinbase_tx(1, [(50 * 10**8, P2PKH(gen.rb(r, 20)))], extra=gen.rb(r, 2))], time=1300000001)
+        c = Case('foreign_genesis%d_%s' % (k5, coin), coin); place = {}
+        for h, b in enumerate([g0, b1]):
+            off = c.put_block(0, b.raw); c.add_record(b, h, 0, off); place[h] = (0, off)
+        c.verify = True; c.meta.update(counts=[1, 1], place=place, corrupt=(0, 'foreign-genesis')); cases.append(c); expect[c.id] = 0
     cbs = lambda c: ['csv']
     models = run.run_model(ck.tools, cases, ['csv'])
     from concurrent.futures import ThreadPoolExecutor
